@@ -14,7 +14,7 @@ VARIANT_FLAGS = {
     "asan":  ["-O1", "-g", "-fno-omit-frame-pointer", "-fsanitize=address,undefined",
               "-fsanitize-recover=undefined", "-fno-sanitize=function"],
     "tsan":  ["-O1", "-g", "-fno-omit-frame-pointer", "-fsanitize=thread"],
-    "plain": ["-O2", "-g", "-fno-omit-frame-pointer"],
+    "plain": ["-O1", "-gdwarf-4", "-fno-omit-frame-pointer"],
     "dbg":   ["-O0", "-g", "-fno-omit-frame-pointer"],
 }
 
